@@ -219,14 +219,13 @@ func c07req(c *core.Ctx) {
 
 func c07cycle(c *core.Ctx) {
 	const R = "C07.cycle"
-	c.Rule(R, "allOfConstraintCompiler.processType: membership test in processingTypes (panic ErrUnacceptableRecursionInAllOfRule) -> MustType -> insert -> processSchema (recursion) -> delete -> mark compiled, in this order")
+	c.Rule(R, "allOfConstraintCompiler.processType, evaluated on the three states a type name can be in, whatever their representation (two sets, one map to an enum, ...): starting from an untouched name the type is looked up, then marked, then compiled (processSchema) while marked, and ends in a final mark that differs from both; starting from the mark that is in place DURING the compilation the function refuses with ErrUnacceptableRecursionInAllOfRule before anything else; starting from the final mark it returns without compiling again. Otherwise cyclic inheritance recurses without end, or a diamond (two objects inheriting the same type) is reported as a cycle")
 	c.Floor(R, 1)
 	d := c.P.FindDecl("(*notations/jschema/loader.allOfConstraintCompiler).processType")
 	if d == nil {
 		c.Unresolved(R, "(*notations/jschema/loader.allOfConstraintCompiler).processType")
 		return
 	}
-	var order []string
 	r, nm := "c", "name"
 	if d.Decl.Recv != nil && len(d.Decl.Recv.List[0].Names) > 0 {
 		r = d.Decl.Recv.List[0].Names[0].Name
@@ -234,34 +233,163 @@ func c07cycle(c *core.Ctx) {
 	if ps := d.Decl.Type.Params.List; len(ps) > 0 && len(ps[0].Names) > 0 {
 		nm = ps[0].Names[0].Name
 	}
-	for _, s := range d.Decl.Body.List {
-		txt := core.ExprStr0(s)
-		switch {
-		case strings.Contains(txt, r+".processingTypes["+nm+"]; ok") && strings.Contains(txt, "ErrUnacceptableRecursionInAllOfRule"):
-			order = append(order, "test")
-		case strings.Contains(txt, "MustType("+nm+")"):
-			order = append(order, "lookup")
-		case strings.HasPrefix(txt, r+".processingTypes["+nm+"] ="):
-			order = append(order, "insert")
-		case strings.HasPrefix(txt, r+".processSchema("):
-			order = append(order, "recurse")
-		case strings.HasPrefix(txt, "delete("+r+".processingTypes, "+nm+")"):
-			order = append(order, "delete")
-		case strings.HasPrefix(txt, r+".compiledTypes["+nm+"] ="):
-			order = append(order, "compiled")
-		}
-	}
-	got := strings.Join(order, ">")
-	idx := func(s string) int {
-		for i, o := range order {
-			if o == s {
-				return i
+	// the map-typed fields of the compiler that are keyed by the name
+	var setFields, valFields []string
+	if nt := c.P.NamedType("notations/jschema/loader", "allOfConstraintCompiler"); nt != nil {
+		if st, ok := nt.Underlying().(*types.Struct); ok {
+			for i := 0; i < st.NumFields(); i++ {
+				mt, isMap := st.Field(i).Type().Underlying().(*types.Map)
+				if !isMap {
+					continue
+				}
+				if kb, isB := mt.Key().Underlying().(*types.Basic); !isB || kb.Info()&types.IsString == 0 {
+					continue
+				}
+				switch el := mt.Elem().Underlying().(type) {
+				case *types.Struct:
+					if el.NumFields() == 0 {
+						setFields = append(setFields, r+"."+st.Field(i).Name())
+					}
+				case *types.Basic:
+					if el.Kind() == types.Bool {
+						setFields = append(setFields, r+"."+st.Field(i).Name())
+					} else if el.Info()&types.IsInteger != 0 {
+						valFields = append(valFields, r+"."+st.Field(i).Name())
+					}
+				}
 			}
 		}
-		return -1
 	}
-	ok := idx("test") >= 0 && idx("test") < idx("insert") && idx("insert") < idx("recurse") && idx("recurse") < idx("delete") && idx("delete") < idx("compiled")
-	c.Check(ok, R, "processType:order", c.P.Pos(d.Decl.Pos()), "processType statement order: "+got, "the cycle guard of allOf compilation is out of order: cyclic inheritance recurses without end, or a diamond (two objects inheriting the same type) is reported as a cycle")
+	if len(setFields)+len(valFields) == 0 {
+		c.Bad(R, "processType:order", c.P.Pos(d.Decl.Pos()), "state of a type name in allOfConstraintCompiler", "undecided: the compiler has no map keyed by the type name")
+		return
+	}
+	type snap struct {
+		sets map[string]bool
+		vals map[string]int64
+	}
+	const key = int64(1)
+	take := func(e *miniEval) snap {
+		sn := snap{map[string]bool{}, map[string]int64{}}
+		for _, f := range setFields {
+			sn.sets[f] = e.maps[f][key]
+		}
+		for _, f := range valFields {
+			sn.vals[f] = e.vmaps[f][key]
+		}
+		return sn
+	}
+	same := func(a, b snap) bool {
+		for k, v := range a.sets {
+			if b.sets[k] != v {
+				return false
+			}
+		}
+		for k, v := range a.vals {
+			if b.vals[k] != v {
+				return false
+			}
+		}
+		return true
+	}
+	run := func(start *snap) (events []string, during *snap, end snap, status int, unknown string) {
+		e := &miniEval{pk: d.Pkg, env: map[string]int64{nm: key, "nil": 0}, ctx: c, maps: map[string]map[int64]bool{}, vmaps: map[string]map[int64]int64{}}
+		for _, f := range setFields {
+			e.maps[f] = map[int64]bool{}
+			if start != nil && start.sets[f] {
+				e.maps[f][key] = true
+			}
+		}
+		for _, f := range valFields {
+			e.vmaps[f] = map[int64]int64{}
+			if start != nil && start.vals[f] != 0 {
+				e.vmaps[f][key] = start.vals[f]
+			}
+		}
+		e.hook = func(x ast.Expr) (int64, bool) {
+			switch y := x.(type) {
+			case *ast.Ident:
+				if y.Name == "nil" {
+					return 0, true
+				}
+			case *ast.CallExpr:
+				f := core.ExprStr(y.Fun)
+				switch {
+				case strings.HasSuffix(f, ".processSchema"):
+					events = append(events, "compile")
+					sn := take(e)
+					during = &sn
+					return 0, true
+				case strings.HasSuffix(f, "MustType"):
+					events = append(events, "lookup")
+					return 1, true
+				case f == "panic" || f == "len" || f == "delete":
+					return 0, false
+				}
+				if tv, ok := d.Pkg.TypesInfo.Types[y.Fun]; ok && tv.IsType() {
+					return 0, false
+				}
+				return 1, true
+			}
+			return 0, false
+		}
+		e.onExprCall = func(call *ast.CallExpr) bool {
+			if strings.HasSuffix(core.ExprStr(call.Fun), ".processSchema") {
+				events = append(events, "compile")
+				sn := take(e)
+				during = &sn
+				return true
+			}
+			return false
+		}
+		st, _ := e.run(d.Decl.Body.List)
+		for _, ef := range e.effects {
+			if strings.Contains(ef, "ErrUnacceptableRecursionInAllOfRule") {
+				events = append(events, "refuse")
+			}
+		}
+		return events, during, take(e), st, e.unknown
+	}
+	bad := ""
+	ev0, during, end0, st0, u0 := run(nil)
+	untouched := snap{map[string]bool{}, map[string]int64{}}
+	switch {
+	case u0 != "":
+		bad = "undecided: " + u0
+	case st0 == miniPanic:
+		bad = "an untouched type name is refused"
+	case during == nil:
+		bad = "an untouched type is not compiled (no processSchema call)"
+	case len(ev0) < 2 || ev0[0] != "lookup":
+		bad = "the type is not looked up (MustType) before it is marked and compiled: " + strings.Join(ev0, " > ")
+	case same(*during, untouched):
+		bad = "the name is not marked while its schema is compiled: a cycle recurses without end"
+	case same(end0, *during):
+		bad = "the mark of the compilation is still in place afterwards: a second use of the type (diamond) is reported as a cycle"
+	case same(end0, untouched):
+		bad = "a compiled type is not marked as compiled: it is compiled again by every user"
+	}
+	if bad == "" {
+		ev1, _, _, st1, u1 := run(during)
+		switch {
+		case u1 != "":
+			bad = "undecided: " + u1
+		case st1 != miniPanic || len(ev1) == 0 || ev1[0] != "refuse":
+			bad = "a name that is being compiled is not refused first: " + strings.Join(ev1, " > ")
+		}
+	}
+	if bad == "" {
+		ev2, d2, _, st2, u2 := run(&end0)
+		switch {
+		case u2 != "":
+			bad = "undecided: " + u2
+		case st2 == miniPanic:
+			bad = "a compiled type is refused"
+		case d2 != nil:
+			bad = "a compiled type is compiled again: " + strings.Join(ev2, " > ")
+		}
+	}
+	c.Check(bad == "", R, "processType:order", c.P.Pos(d.Decl.Pos()), "processType on the three states of a type name: untouched -> lookup, mark, compile, final mark; in compilation -> refused; compiled -> returned", "the cycle guard of allOf compilation is out of order: "+bad)
 }
 
 func c07refuse(c *core.Ctx) {
